@@ -4,6 +4,7 @@ import (
 	"encoding/json"
 	"fmt"
 	"strings"
+	"verif/harness/suites/ht"
 
 	rcodec "github.com/cocosip/go-dicom-codecs/codec"
 	"github.com/cocosip/go-dicom-codecs/jpeg/baseline"
@@ -47,6 +48,7 @@ type c16Case struct {
 	TH      int    `json:"th"`
 	Planar  int    `json:"planar"`
 	Content int    `json:"content"`
+	ROI     int    `json:"roi"` // > 0: MaxShift ROI rectangle with this shift (JPEG 2000 families)
 	Seed    uint64 `json:"seed"`
 }
 
@@ -110,6 +112,10 @@ func (k c16Case) j2kParams() *jpeg2000.EncodeParams {
 	p.EnableMCT = k.MCT
 	p.TileWidth, p.TileHeight = k.TW, k.TH
 	p.Lossless = k.Enc != "j2k-irr"
+	if k.ROI > 0 {
+		rw, rh := (k.W+1)/2, (k.H+1)/2
+		p.ROI = &jpeg2000.ROIParams{X0: (k.W - rw) / 2, Y0: (k.H - rh) / 2, Width: rw, Height: rh, Shift: k.ROI}
+	}
 	if !p.Lossless {
 		p.Quality = k.Quality
 	}
@@ -321,7 +327,9 @@ func genC16(r *Rand, fam string, thor bool) c16Case {
 			}
 			k.TW, k.TH = (k.W+nx-1)/nx, (k.H+ny-1)/ny
 		case "j2k-tiled":
-			// tile grids up to 64 tiles
+			// tile grids up to 64 tiles; sometimes several layers (the global rate-allocation
+			// tile writer is a different code path from the single-layer one)
+			k.Layers = r.Pick(1, 1, 2, 3)
 			nx, ny := r.Range(1, 8), r.Range(1, 8)
 			if r.Intn(4) == 0 {
 				nx, ny = 8, 8
@@ -345,6 +353,9 @@ func genC16(r *Rand, fam string, thor bool) c16Case {
 			k.PW, k.PH = r.Pick(32, 64, 128, 256), r.Pick(32, 64, 128, 256)
 			k.Prog = r.Range(0, 4)
 		}
+	}
+	if strings.HasPrefix(fam, "j2k") && r.Intn(4) == 0 && k.W >= 2 && k.H >= 2 {
+		k.ROI = r.Range(1, 5) // region of interest: RGN in the main / tile-part headers
 	}
 	return k
 }
@@ -596,6 +607,7 @@ func runC16(c *Ctx) {
 		k.W, k.H, k.TW, k.TH, k.Levels, k.Comps, k.P, k.Content = 106, 106, 1, 1, 0, 1, 8, 0
 		cases = append(cases, k)
 	}
+	c16HTFusionFrames(c)
 	ParallelFor(len(cases), c.Work, func(i int) {
 		k := cases[i]
 		pix := k.pixels()
@@ -715,4 +727,41 @@ func c16Sensitivity(c *Ctx, k c16Case, s []byte) {
 			c.R.Count("c16.mutant_reason." + badReason(rep))
 		}
 	}
+}
+
+// c16HTFusionFrames runs the J2K walker over small HTJ2K frames whose single code-block is one
+// of the HT suite's corpus blocks where the last MEL byte and the last VLC byte of the
+// cleanup segment combine to 0xFF (the one junction of the HT block coder where a marker
+// code could appear in packet data; about one random sparse block in 2000 reaches it).
+func c16HTFusionFrames(c *Ctx) {
+	if !c.HasModel() || c.ReplayInputs("c16") != nil {
+		return
+	}
+	frames := ht.FusionCorpusFrames()
+	n := 0
+	for _, f := range frames {
+		for _, ts := range []string{"201", "202"} {
+			var cs []byte
+			var err error
+			key := "htfusion:" + f.Name + ":" + ts
+			p, msg := Safely(func() { cs, err = f.Codestream(ts) })
+			c.R.Case(key, !p && err == nil && len(cs) >= 20, "c16.enc.htj2k-fusion-"+ts)
+			if p {
+				c.R.Oracle("c16")
+				c.R.Fail("oracle", "c16", "c16:htj2k-"+ts+":encode-panic", "encoder panicked on an in-domain input: "+msg, map[string]interface{}{"frame": f.Name, "ts": ts})
+				continue
+			}
+			if err != nil {
+				c.R.Count("c16.encode_error.htj2k-fusion-" + ts)
+				continue
+			}
+			n++
+			c.R.Oracle("c16")
+			rep := c.M.Call("frm_j2k", hexOf(cs))
+			if _, ok := fields(rep); !ok {
+				c.R.Fail("oracle", "c16", "c16:htj2k-"+ts+":"+badReason(rep), "walker: "+rep+" (frame "+f.Name+")", map[string]interface{}{"frame": f.Name, "ts": ts, "stream": hexOf(cs)})
+			}
+		}
+	}
+	c.R.Note("c16: %d HTJ2K codestreams of MEL/VLC-fusion corpus frames walked", n)
 }
